@@ -158,7 +158,7 @@ def handle (d : DSt) (j : Json) : R (DSt × Json) := do
     -- import time / object creation differ from it after a fork (default: no fork)
     let og : Origin := { importPid := (← optF asNat j "import_pid").getD k0.self,
                          createPid := (← optF asNat j "create_pid").getD k0.self }
-    let (o, k') := stepPyW cfg routing og k0 pid x req
+    let (o, k') := stepPyN cpuNumBits cfg routing og k0 pid x req
     let spec : Json :=
       if pid = 0 then Json.null
       else match k0.procs pid with
